@@ -14,7 +14,7 @@ EXPLANATION = (
     "fresh one (empty map) before any key-value is applied; (R02.4) epoch consistency of admission — a delta is applied "
     "incrementally only if its GC epoch, the copy's max version or the delta's end is at or above the copy's watermark; the "
     "one violating ordering class of the pinned tree is the known finding KF-1 (mid-reset copy fed from a lower GC epoch), "
-    "any other class is a violation; (R02.5) the sender resets (from = 0) whenever the peer is behind its watermark. The "
+    "any other class is a violation; (R02.5) the sender resets (from = 0) whenever the peer is behind its watermark; (R18.2) catch-up admission; (R02.6 = C04/R04.4) the store step overwrites an occupied entry iff the update is strictly newer and always fills a vacant one. The "
     "invariant itself over all histories is NOT decided.")
 TRUSTED = ["BTreeMap semantics", "the step obligations are necessary, not sufficient, for the global invariant"]
 ASSUMPTIONS = ["tombstone GC raising the watermark is decided under C06/R06.3; ascending gap-free delta content under C07/R07.4"]
